@@ -668,20 +668,42 @@ func scenario(v variant) *netctl.Scenario {
 			st := &state{x: x, members: map[string]*member{}, confirmed: map[int64]int{}}
 			st.present, st.holes = load(x, c, v)
 			x.FrameHook = st.hook
-			newMember := func(name string) *app {
+			newMember := func(name string, wait time.Duration) *app {
+				st.mu.Lock()
 				m := st.member(name)
+				st.mu.Unlock()
 				m.cl = nscen.NewClient(x, name, c,
 					kgo.ConsumeTopics(topic),
 					kgo.ShareGroup(group),
 					kgo.ShareAckCallback(st.callback(name)),
-					kgo.FetchMaxWait(500*time.Millisecond),
+					kgo.FetchMaxWait(wait),
 				)
 				return &app{st: st, m: m, x: x}
 			}
-			a := newMember("A")
+			a := newMember("A", 500*time.Millisecond)
 			afterPoll1 := make(chan struct{})
 			afterAck1b := make(chan struct{})
 			aDone := make(chan struct{})
+			// B is declared first: once it may join, its steps are taken as soon as
+			// they are enabled, so the two members overlap on the default schedule.
+			if v.two {
+				x.Thread("B", func(t *netctl.Thread) {
+					// B joins after A's first poll (its fetch long-poll is 700 ms, A's
+					// 500 ms, so the two clients' fetch timers stay off each other's grid).
+					<-afterPoll1
+					t.Step("b-join")
+					b := newMember("B", 700*time.Millisecond)
+					t.Step("b-poll")
+					ctx, cancel := context.WithTimeout(context.Background(), 4*time.Second)
+					pb := b.poll(ctx, -1)
+					cancel()
+					t.Step("b-mark-all")
+					_ = pb
+					b.markAll(kgo.AckAccept) // MarkAcks without records: everything of the last poll not yet marked
+					t.Step("b-close")
+					b.close()
+				})
+			}
 			x.Thread("A", func(t *netctl.Thread) {
 				defer close(aDone)
 				t.Step("poll1")
@@ -735,21 +757,6 @@ func scenario(v variant) *netctl.Scenario {
 				t.Step("close") // whatever poll3 returned is released
 				a.close()
 			})
-			if v.two {
-				b := newMember("B")
-				x.Thread("B", func(t *netctl.Thread) {
-					<-afterPoll1
-					t.Step("b-poll")
-					ctx, cancel := context.WithTimeout(context.Background(), 4*time.Second)
-					pb := b.poll(ctx, -1)
-					cancel()
-					t.Step("b-mark-all")
-					_ = pb
-					b.markAll(kgo.AckAccept) // MarkAcks without records: everything of the last poll not yet marked
-					t.Step("b-close")
-					b.close()
-				})
-			}
 			if v.moveAt != "" {
 				x.Thread("ENV", func(t *netctl.Thread) {
 					switch v.moveAt {
